@@ -705,7 +705,7 @@ class Product:
         k = rv["k"]
         if k == "use":
             tag = self._tag_of_operand(inst, rv["a"], tags)
-            if tag is not None and rv["a"]["k"] == "const" and not s["p"]["proj"] \
+            if tag is not None and rv["a"]["k"] == "const" and not s["p"]["proj"] and s["p"]["l"] != 0 \
                     and "name" not in inst.body["locals"][s["p"]["l"]]:
                 tag = None      # compiler drop flag, not program state
         elif k == "agg" and rv["ak"] == "adt" and (rv["adt"] in (
@@ -1056,6 +1056,17 @@ def run_monitor(P, init, step, starts=None, max_states=2000000):
                 if len(seen) > max_states:
                     raise Unresolved("monitor product too large")
     return seen
+
+
+def finals(P, seen, step):
+    """(pi, state after executing pi's own block) for product nodes without successors (exits)"""
+    out = []
+    for (pi, ms) in seen:
+        if not P.succ.get(pi):
+            ns = step(ms, pi, None, ())
+            if ns is not None:
+                out.append((pi, ms, ns))
+    return out
 
 
 def path_to(seen, k):
